@@ -173,6 +173,16 @@ func main() {
 			i++
 		}
 	}
+	// class "names and authority key ids of the pre-issuer" (after the older classes, whose draws stay what they were)
+	for rep := lib.Count(1, 4); rep > 0; rep-- {
+		for _, c := range nameClasses() {
+			for k := 0; k < 2; k++ {
+				c := c
+				e.guarded(i, func() { e.one(i, nil, &c) })
+				i++
+			}
+		}
+	}
 	e.r = r
 	for i = 0; i < n; i++ {
 		e.guarded(i, func() { e.one(i, nil, nil) })
@@ -273,6 +283,28 @@ type pairSpec struct {
 	crit  string   // which extension's critical flag departs from the issuer's habit (critKinds, "all", "sct")
 	pre   bool     // with a dedicated pre-issuer
 	shape []string // the embedded SCT list (see sctShapes)
+	// class "names and authority key ids of the pre-issuer" (nameClasses)
+	name string // subject name of the pre-issuer: "same" octets as its issuer's name, "recoded", "different"
+	aki  string // what the pre-issuer route has to do with the authority key id: "replace", "none", "delete", "append"
+}
+
+// nameClasses: the issuer name and the authority key identifier are the two things the pre-issuer route
+// replaces; the class draws them independently of each other.  The subject name of the precertificate signing
+// certificate is, octet for octet, the subject name of the CA that certified it (RFC 6962 does not forbid it:
+// only keys and key identifiers differ, and the issuer field of the precertificate is then already the issuer
+// field of the final certificate), the same name with its PrintableStrings written as UTF8Strings, or another
+// name; crossed with: the precertificate's authority key id is the pre-issuer's subject key id and the
+// pre-issuer has one of its own ("replace"), neither has one ("none"), only the precertificate has one
+// ("delete"), only the pre-issuer has one ("append").  Place of the poison and of the SCT list among the
+// other extensions, serial, validity, keys and the embedded list are drawn as for the random pairs.
+func nameClasses() []pairSpec {
+	var out []pairSpec
+	for _, n := range []string{"same", "recoded", "different"} {
+		for _, a := range []string{"replace", "none", "delete", "append"} {
+			out = append(out, pairSpec{name: n, aki: a, pre: true})
+		}
+	}
+	return out
 }
 
 // critKinds: the extensions a certificate of the harness can carry besides poison and SCT list, with
@@ -572,6 +604,22 @@ func (e *env) listQueries(i int, chain, fchain []*x509.Certificate, list []sctEn
 		PropOK: propOK, Note: note,
 		Tags: []string{fmt.Sprintf("sct-queries:len=%d", cap3(len(list))), fmt.Sprintf("sct-queries:of-the-log=%d", cap3(sameLog)), fmt.Sprintf("sct-queries:identical=%d", cap3(dups)), "sct-queries:" + fmut},
 	})
+}
+
+func nameDesc(sp *pairSpec) string {
+	if sp == nil || sp.name == "" {
+		return "another name than its issuer's"
+	}
+	return map[string]string{"same": "subject name octet for octet the subject name of the CA that certified it", "recoded": "the CA's subject name with UTF8String in place of PrintableString",
+		"different": "another name than its issuer's"}[sp.name]
+}
+
+func akiDesc(sp *pairSpec) string {
+	if sp == nil || sp.name == "" {
+		return "as drawn"
+	}
+	return map[string]string{"replace": "precertificate: the pre-issuer's subject key id; pre-issuer: the CA's", "none": "neither the precertificate nor the pre-issuer has one",
+		"delete": "precertificate has one, pre-issuer has none", "append": "precertificate has none, pre-issuer has one"}[sp.aki]
 }
 
 // ---- certificate content shared by a precertificate, its reference and its final certificate ----
@@ -884,10 +932,15 @@ func (e *env) one(i int, forcedEKU []string, sp *pairSpec) {
 	full := sp != nil && sp.crit != ""
 	std := i%2 == 1        // every other pair comes from the standard library's issuer
 	bare := r.Intn(3) == 0 // certificates whose only extensions are the extra ones
-	if full {
+	named := sp != nil && sp.name != ""
+	if full || named {
 		bare = false
 	}
 	caWithSKI := (r.Intn(4) != 0 || full) && !bare
+	if named && !std {
+		// the fork's issuer derives every authority key id from the parent's subject key id
+		caWithSKI = sp.aki == "replace"
+	}
 	var caSKI []byte
 	if caWithSKI {
 		caSKI = make([]byte, 20)
@@ -905,7 +958,7 @@ func (e *env) one(i int, forcedEKU []string, sp *pairSpec) {
 	}
 	ca := issue(std, caOpts, root)
 	usePre := r.Intn(2) == 0 || forced
-	if full {
+	if full || named {
 		usePre = sp.pre
 	}
 	// with the standard library's issuer a CA always has a subject key id; its children carry no authority
@@ -917,7 +970,11 @@ func (e *env) one(i int, forcedEKU []string, sp *pairSpec) {
 	ekuTag := "eku:none"
 	if usePre {
 		var piSKI []byte
-		if (r.Intn(3) != 0 || full) && !bare {
+		withPiSKI := (r.Intn(3) != 0 || full) && !bare
+		if named {
+			withPiSKI = std || sp.aki == "replace" || sp.aki == "delete"
+		}
+		if withPiSKI {
 			piSKI = make([]byte, 20)
 			r.Read(piSKI)
 		}
@@ -928,7 +985,11 @@ func (e *env) one(i int, forcedEKU []string, sp *pairSpec) {
 		// the pre-issuer's own authority key id, in the three forms RFC 5280 allows; custom forms are
 		// only possible when the CA has no subject key id (CreateCertificate would add its own)
 		var piExtra []pkix.Extension
-		if (std || (caSKI == nil && piSKI == nil)) && r.Intn(2) == 0 && !full {
+		handAKI := (std || (caSKI == nil && piSKI == nil)) && r.Intn(2) == 0 && !full
+		if named {
+			handAKI = sp.aki == "append"
+		}
+		if handAKI {
 			piExtra = []pkix.Extension{{Id: x509.OIDExtensionAuthorityKeyId, Value: akiValue(r, ca.Cert)}}
 			noAKI = true
 		}
@@ -940,6 +1001,10 @@ func (e *env) one(i int, forcedEKU []string, sp *pairSpec) {
 		case std:
 			o.EKUNames = names
 			o.NoAKI = piExtra == nil && r.Intn(4) == 0 && !full // a pre-issuer without authority key id
+			if named {
+				o.NoAKI = sp.aki == "none" || sp.aki == "delete"
+				noAKI = sp.aki == "none" || sp.aki == "append"
+			}
 			for _, n := range names {
 				hasCT = hasCT || n == "ct"
 			}
@@ -950,7 +1015,28 @@ func (e *env) one(i int, forcedEKU []string, sp *pairSpec) {
 			o.EKUs = []x509.ExtKeyUsage{ekuKnown[names[0]]}
 		}
 		ekuTag = fmt.Sprintf("eku:%v", names)
+		if named && sp.name != "different" {
+			o.CN = caOpts.CN // the octets of the CA's subject name (both issuers encode a name from the same two attributes)
+			if sp.name == "recoded" {
+				rn, changed := recodeName(ca.Cert.RawSubject)
+				if !changed {
+					panic("harness: the CA's name has no PrintableString to write as a UTF8String")
+				}
+				o.RawSubject = rn
+			} else if piExtra == nil && !o.NoAKI {
+				// neither issuer derives an authority key id from the parent when subject and issuer name are the
+				// same octets: the template names the CA's subject key id
+				o.SelfAKI = ca.Cert.SubjectKeyId
+			}
+		}
 		preIss = issue(std, o, ca)
+		if named {
+			same := bytes.Equal(preIss.Cert.RawSubject, ca.Cert.RawSubject)
+			piAKI, preAKIwant := hasExt(preIss.Cert, x509.OIDExtensionAuthorityKeyId), sp.aki == "replace" || sp.aki == "append"
+			if same != (sp.name == "same") || piAKI != preAKIwant {
+				panic(fmt.Sprintf("harness: pre-issuer of the class %s/%s: same name octets %v, authority key id %v", sp.name, sp.aki, same, piAKI))
+			}
+		}
 	}
 	// the certificate content
 	nExtra := r.Intn(4)
@@ -983,6 +1069,9 @@ func (e *env) one(i int, forcedEKU []string, sp *pairSpec) {
 	if full {
 		critTag = fmt.Sprintf("crit-class:%s:pre=%v:%s", sp.crit, sp.pre, issuerName(std))
 	}
+	if named {
+		critTag = fmt.Sprintf("pre-issuer-name:%s:aki=%s:%s", sp.name, sp.aki, issuerName(std))
+	}
 	sctExt := func(v []byte) pkix.Extension {
 		return pkix.Extension{Id: x509.OIDExtensionCTSCT, Critical: sctCrit, Value: v}
 	}
@@ -1010,6 +1099,9 @@ func (e *env) one(i int, forcedEKU []string, sp *pairSpec) {
 		}
 	}
 	precert := c.issue(precertExts, precertParent, noAKI)
+	if named && hasExt(precert.Cert, x509.OIDExtensionAuthorityKeyId) != (sp.aki == "replace" || sp.aki == "delete") {
+		panic(fmt.Sprintf("harness: precertificate of the class %s/%s: authority key id %v", sp.name, sp.aki, hasExt(precert.Cert, x509.OIDExtensionAuthorityKeyId)))
+	}
 	var preCert *x509.Certificate
 	preCoq := "None"
 	if usePre {
@@ -1023,7 +1115,7 @@ func (e *env) one(i int, forcedEKU []string, sp *pairSpec) {
 	}
 	input := func() map[string]interface{} {
 		return map[string]interface{}{"issuer": issuerName(std), "bare": bare, "preissuer": usePre, "preissuer_eku": ekuTag, "mutation": mut, "others": nExtra, "poison_at": pi, "leaf_key": c.leafKind,
-			"critical_flags": critDesc(c.recrit), "sct_list_critical": sctCrit}
+			"critical_flags": critDesc(c.recrit), "sct_list_critical": sctCrit, "preissuer_name": nameDesc(sp), "authority_key_id": akiDesc(sp)}
 	}
 	var ref []byte
 	if mut == "none" && !usePre {
